@@ -51,6 +51,8 @@ module Nat :
 
 val nth_error : 'a1 list -> nat -> 'a1 option
 
+val rev : 'a1 list -> 'a1 list
+
 val rev_append : 'a1 list -> 'a1 list -> 'a1 list
 
 val concat : 'a1 list list -> 'a1 list
@@ -70,6 +72,8 @@ val filter : ('a1 -> bool) -> 'a1 list -> 'a1 list
 val firstn : nat -> 'a1 list -> 'a1 list
 
 val skipn : nat -> 'a1 list -> 'a1 list
+
+val repeat : 'a1 -> nat -> 'a1 list
 
 type positive =
 | XI of positive
@@ -102,6 +106,8 @@ module Coq_Pos :
   val add_carry : positive -> positive -> positive
 
   val pred_double : positive -> positive
+
+  val pred_N : positive -> n
 
   type mask = Pos.mask =
   | IsNul
@@ -158,6 +164,8 @@ module Coq_Pos :
 
   val coq_land : positive -> positive -> n
 
+  val ldiff : positive -> positive -> n
+
   val coq_lxor : positive -> positive -> n
 
   val shiftl : positive -> n -> positive
@@ -170,6 +178,8 @@ module N :
   val succ_double : n -> n
 
   val double : n -> n
+
+  val succ_pos : n -> positive
 
   val add : n -> n -> n
 
@@ -209,6 +219,8 @@ module N :
 
   val coq_land : n -> n -> n
 
+  val ldiff : n -> n -> n
+
   val coq_lxor : n -> n -> n
 
   val shiftl : n -> n -> n
@@ -220,6 +232,8 @@ module N :
 
 type ascii =
 | Ascii of bool * bool * bool * bool * bool * bool * bool * bool
+
+val eqb0 : ascii -> ascii -> bool
 
 val n_of_digits : bool list -> n
 
@@ -283,14 +297,26 @@ module Z :
 
   val rem : z -> z -> z
 
+  val even : z -> bool
+
   val ggcd : z -> z -> z * (z * z)
+
+  val coq_land : z -> z -> z
  end
+
+val zeq_bool : z -> z -> bool
 
 type string =
 | EmptyString
 | String of ascii * string
 
+val eqb1 : string -> string -> bool
+
 type q = { qnum : z; qden : positive }
+
+val qcompare : q -> q -> comparison
+
+val qeq_bool : q -> q -> bool
 
 val qle_bool : q -> q -> bool
 
@@ -397,6 +423,14 @@ val country_arms : ((n * n) * string) list
 
 val country_default : string
 
+val header_cols : ((string * string) * nat) list
+
+val header_tail : string
+
+val separator_tail : string
+
+val wake_table : ((n * n) * n) list
+
 val ma_go : n list -> (nat * n) list -> n -> n -> n res
 
 val ma_code : n list -> n option res
@@ -422,6 +456,10 @@ val squawk : n list -> n option res
 val ia5 : n -> n
 
 val ais : n list -> n list option res
+
+val wake_lookup : ((n * n) * n) list -> (n * n) -> n option
+
+val get_wake_turbulence_category : (n * n) -> n option
 
 val threat_encounter : n list -> n option res
 
@@ -733,6 +771,24 @@ val run_lines : opts -> z -> state -> n list option list -> state res
 
 val read_lines : opts -> z -> table -> n list -> table res
 
+val insert_by : ('a1 -> z) -> 'a1 -> 'a1 list -> 'a1 list
+
+val stable_sort : ('a1 -> z) -> 'a1 list -> 'a1 list
+
+val qtrunc : q -> z
+
+val okey : n option -> z
+
+type sort_action =
+| SortBy of (row -> z) * bool
+| NoSort
+
+val sort_action_of : (row -> z) -> n -> sort_action
+
+val apply_sort : (row -> z) -> (n * row) list -> n -> (n * row) list
+
+val print_order : (row -> z) -> n list list -> table -> (n * row) list
+
 type bytes = n list
 
 val str : string -> bytes
@@ -817,3 +873,56 @@ val run_m_go :
 val run_m : opts -> bytes -> bytes * bytes
 
 val run_case : bytes -> bytes
+
+val spaces : nat -> bytes
+
+val pad_left : nat -> bytes -> bytes
+
+val pad_right : nat -> bytes -> bytes
+
+val zero_pad : nat -> bytes -> bytes
+
+val round_half_even : q -> z
+
+val fmt_fixed : nat -> q -> bytes
+
+val has_flag : opts -> n -> bool
+
+val fl_weather : opts -> bool
+
+val fl_angles : opts -> bool
+
+val fl_speed : opts -> bool
+
+val fl_altitude : opts -> bool
+
+val fl_extra : opts -> bool
+
+val group_on : opts -> string -> bool
+
+val header_line : opts -> bytes
+
+val separator_line : opts -> bytes
+
+val cell_oN : nat -> n option -> bytes
+
+val cell_oZ : nat -> z option -> bytes
+
+val age10 : z -> z option -> bytes
+
+val render_row : opts -> z -> (row -> bytes) -> row -> bytes
+
+val counter_line : counters -> bytes
+
+val render_frame :
+  opts -> z -> (row -> z) -> (row -> bytes) -> state -> bytes list
+
+val run_cli_lines :
+  opts -> z -> state -> n list option list -> bytes list list -> bytes list
+  list res
+
+val run_cli : opts -> z -> bytes -> bytes list list res
+
+val run_c : opts -> bytes -> bytes * bytes
+
+val run_case2 : bytes -> bytes
